@@ -98,6 +98,30 @@ def run(payload):
                 fails.append({"id": f"{kind}{dim or ''}.{op}{opts}", "config": cfg, "grid": repr(grid), "rel_deviation": worst,
                               "component_and_cell": where, "arr": arr.tolist() if arr.size < 400 else "large"})
                 break
+    if payload.get("shifted_grids"):
+        # the operator with boundary conditions as users get it (grid.make_operator) on two grids of one class that differ
+        # only by a shift of their bounds: the 1/r terms must be those of the grid at hand
+        from pde import ScalarField
+        for ga, gb in ((SphericalSymGrid((1, 2), 8), SphericalSymGrid((2, 3), 8)), (PolarSymGrid((0.5, 2.5), 6), PolarSymGrid((1.5, 3.5), 6)),
+                       (CylindricalSymGrid((1, 3), (0, 2), (4, 3)), CylindricalSymGrid((2, 4), (0, 2), (4, 3)))):
+            kind = {SphericalSymGrid: "spherical", PolarSymGrid: "polar", CylindricalSymGrid: "cylindrical"}[type(ga)]
+            for g in (ga, gb):
+                cases += 1
+                f = ScalarField(g, rng.uniform(-1, 1, g.shape))
+                got = g.make_operator("laplace", "auto_periodic_neumann", backend="numba")(f.data)
+                f.set_ghost_cells("auto_periodic_neumann")
+                geom = Geom()
+                geom.num_axes, geom.h = g.num_axes, [float(d) for d in g.discretization]
+                geom.r = g.axes_coords[0].reshape((-1,) + (1,) * (g.num_axes - 1))
+                valid = tuple(slice(1, -1) for _ in range(g.num_axes))
+
+                def u(comp, off, full=f._data_full, g=g):
+                    return full[tuple(slice(1 + o, 1 + o + n) for o, n in zip(off, g.shape))]
+
+                want = S.operator_spec(kind, "laplace", u, geom, dim=None, conservative=(kind == "spherical"))[()]
+                dev = float(np.max(np.abs(got - want)) / (1 + np.max(np.abs(want))))
+                if dev > 1e-9:
+                    fails.append({"id": f"{kind}.laplace_with_bc_on_shifted_grid", "grid": repr(g), "first_grid": repr(ga), "rel_deviation": dev})
     return {"ok": True, "cases": cases, "failures": fails}
 
 
